@@ -26,7 +26,7 @@ theorem goodLoop_stop {e p evs} (ih : Good P cfg env inp e p .fail evs) :
   obtain ⟨h1, hc⟩ := hc.head
   obtain ⟨h2, hc⟩ := hc.head
   have hcb := hc.left
-  obtain ⟨s2, fr2, hF, hj, hst⟩ := ih out stb code _ s (f.set out (s.pos, s.ti)) hcb hp
+  obtain ⟨s2, fr2, hF, hj, hst⟩ := ih out false false stb code _ s (f.set out (s.pos, s.ti)) hcb hp (Lead_false _ _ _ _)
   have hu : env.used out = true := hp.usedIn hcb hj
   obtain ⟨_, hc⟩ := hc.right.head
   simp only [CEnv.lbl, hu, ↓reduceIte, List.cons_append, List.nil_append] at hc
@@ -66,7 +66,7 @@ theorem goodLoop_step {e p p1 f1 evs1 p2 f2 evs2}
   obtain ⟨h1, hc⟩ := hc.head
   obtain ⟨h2, hc⟩ := hc.head
   have hcb := hc.left
-  obtain ⟨s1, fr1, hS, hst⟩ := ih1 out stb code _ s (f.set out (s.pos, s.ti)) hcb hp
+  obtain ⟨s1, fr1, hS, hst⟩ := ih1 out false false stb code _ s (f.set out (s.pos, s.ti)) hcb hp (Lead_false _ _ _ _)
   obtain ⟨h3, _⟩ := hc.right.head
   have hp1 : Pre env inp code s1 p1 :=
     hp.move hS.pos (Eval_bound hev hp.ple _ _ rfl).2 hS.len hS.memo
@@ -89,21 +89,25 @@ theorem goodLoop_step {e p p1 f1 evs1 p2 f2 evs2}
 
 theorem good_star_of_loop {e p res evs} (h : GoodLoop P cfg env inp e p res evs) :
     Good P cfg env inp (.star e) p res evs := by
-  intro ko st code pc s f hc hp
+  intro ko pd pmk st code pc s f hc hp hlead
+  simp only [Lead] at hlead
+  subst hlead
+  have hpmk := compile_pd_false env e (st.label + 1) pmk { st with label := st.label + 2 }
   have h' := h st.label (st.label + 1) { st with label := st.label + 2 } code pc s f
-    (by simpa [compile, loopCode] using hc) hp (by simp) (by simp)
+    (by simpa [compile, loopCode, hpmk] using hc) hp (by simp) (by simp)
   cases res with
   | ok p' forest =>
     obtain ⟨s', f', hS, _, hst⟩ := h'
     refine ⟨s', f', by simpa using hS, ?_⟩
-    exact hst.cast (by simp [compile, loopCode])
+    exact hst.cast (by simp [compile, loopCode, hpmk])
   | fail => exact h'.elim
 
 theorem good_plus_fail {e p evs} (ih : Good P cfg env inp e p .fail evs) :
     Good P cfg env inp (.plus e) p .fail evs := by
-  intro ko st code pc s f hc hp
+  intro ko pd pmk st code pc s f hc hp _
   simp only [compile, List.append_assoc] at hc ⊢
-  obtain ⟨s2, fr2, hF, hj, hst⟩ := ih ko { st with label := st.label + 2 } code pc s f hc.left hp
+  obtain ⟨s2, fr2, hF, hj, hst⟩ := ih ko false false { st with label := st.label + 2 } code pc s f hc.left hp
+    (Lead_false _ _ _ _)
   exact ⟨s2, fr2, hF.weaken (by simp), by simp [jumps_append, hj], hst⟩
 
 theorem good_plus_ok {e p p1 f1 evs1 p2 f2 evs2}
@@ -111,11 +115,11 @@ theorem good_plus_ok {e p p1 f1 evs1 p2 f2 evs2}
     (ih1 : Good P cfg env inp e p (.ok p1 f1) evs1)
     (ih2 : GoodLoop P cfg env inp e p1 (.ok p2 f2) evs2) :
     Good P cfg env inp (.plus e) p (.ok p2 (f1 ++ f2)) (evs1 ++ evs2) := by
-  intro ko st code pc s f hc hp
+  intro ko pd pmk st code pc s f hc hp _
   have hc' : CodeAt code pc ((compile env e ko false false { st with label := st.label + 2 }).code ++
       loopCode env e st.label (st.label + 1) (compile env e ko false false { st with label := st.label + 2 }).st) := by
     simpa [compile, loopCode] using hc
-  obtain ⟨s1, fr1, hS, hst⟩ := ih1 ko { st with label := st.label + 2 } code pc s f hc'.left hp
+  obtain ⟨s1, fr1, hS, hst⟩ := ih1 ko false false { st with label := st.label + 2 } code pc s f hc'.left hp (Lead_false _ _ _ _)
   have hp1 : Pre env inp code s1 p1 :=
     hp.move hS.pos (Eval_bound hev hp.ple _ _ rfl).2 hS.len hS.memo
   have hmono := compile_mono env e ko false false { st with label := st.label + 2 }
